@@ -8,6 +8,7 @@ import h2.errors
 import h2.events
 import h2.exceptions
 import priority
+from hyperframe.exceptions import InvalidFrameError
 
 from .events import (
     Body,
@@ -141,7 +142,14 @@ class H2Protocol:
         self, headers: Optional[List[Tuple[bytes, bytes]]] = None, settings: Optional[str] = None
     ) -> None:
         if settings is not None:
-            self.connection.initiate_upgrade_connection(settings)
+            try:
+                self.connection.initiate_upgrade_connection(settings)
+            except (ValueError, InvalidFrameError, h2.exceptions.ProtocolError):
+                # The HTTP2-Settings header of the upgrade request is
+                # not a base64url encoded SETTINGS payload
+                self.closed = True
+                await self.send(Closed())
+                return
         else:
             self.connection.initiate_connection()
         await self._flush()
